@@ -21,5 +21,5 @@ let act_sx = function
 
 let () = register "events" (function
   | L (A "ev" :: init :: next :: L ops :: _) ->
-    L (A "trace" :: List.map act_sx (M.trace_from false (b1 init) (zarg next) (List.map eop_of ops)))
+    L (A "trace" :: List.map act_sx (M.trace_from (b1 init) (zarg next) (List.map eop_of ops)))
   | _ -> failwith "bad ev case")
